@@ -9,9 +9,11 @@ import (
 	"sync/atomic"
 
 	"google.golang.org/grpc"
+	"google.golang.org/grpc/metadata"
 
 	"goatverif/bed"
 	"goatverif/core"
+	"goatverif/svc"
 )
 
 // C02: streams deliver every message once, in order, then the correct end-of-stream.
@@ -325,7 +327,116 @@ func c02CompleteThenLoss(tier string, seed int64, idx, j int, res *core.Result) 
 	finish(tier, b, h, res)
 }
 
+// c02BinaryMetadata: a stream whose handler sets binary (-bin) response header and trailer
+// metadata, with values whose base64 forms differ between alphabets and need padding. The stream
+// completes successfully: the caller must get every message, io.EOF, and the values unchanged.
+func c02BinaryMetadata(tier string, seed int64, idx, j int, res *core.Result) {
+	kind := []string{"bidi", "server", "client"}[j%3]
+	val := [][]byte{{0xfb, 0xff}, {0xfb}, {0xff, 0xfe, 0xfd, 0xfc}, {0x00}, {0x3e, 0x3f, 0xfb, 0xef, 0xbe}, {}}[j%6]
+	where := []string{"header", "trailer", "both"}[(j/3)%3]
+	res.Sample = map[string]any{"family": "binary-response-metadata", "kind": kind, "value": fmt.Sprintf("%x", val), "where": where}
+	setGMP([]int{1, 4, 16}[j%3])
+	h := bed.NewHooks()
+	h.Install()
+	b := bed.New(bed.Opts{Serialise: j%2 == 0, Cap: j % 3})
+	cc := b.Conns[0]
+	tag := fmt.Sprintf("bmd%d", idx)
+	b.Impl.SetStream(tag, func(t, k string, ss grpc.ServerStream) error {
+		if where != "trailer" {
+			ss.SetHeader(metadata.MD{"h-bin": {string(val)}})
+		}
+		if where != "header" {
+			ss.SetTrailer(metadata.MD{"t-bin": {string(val)}})
+		}
+		if k != "bidi" || true {
+			for {
+				m := new(svc.BV)
+				if err := ss.RecvMsg(m); err != nil {
+					break
+				}
+				if k == "server" {
+					break
+				}
+			}
+		}
+		n := 2
+		if k == "client" {
+			n = 1
+		}
+		for i := 0; i < n; i++ {
+			if err := ss.SendMsg(&svc.BV{Value: []byte{byte(i)}}); err != nil {
+				return err
+			}
+		}
+		return nil
+	})
+	var got [][]byte
+	var end error
+	var hdr, trl metadata.MD
+	done := make(chan struct{})
+	go func() {
+		defer close(done)
+		s, err := svc.Open(context.Background(), cc, kind, tag, []byte("q"))
+		if err != nil {
+			end = fmt.Errorf("open: %w", err)
+			return
+		}
+		if kind != "server" {
+			s.Send([]byte("c1"))
+			s.CloseSend()
+		}
+		for {
+			m, err := s.Recv()
+			if err != nil {
+				end = err
+				break
+			}
+			got = append(got, m)
+		}
+		hdr, _ = s.Header()
+		trl = s.Trailer()
+	}()
+	st, snap := settle(tier, func() bool {
+		select {
+		case <-done:
+			return true
+		default:
+			return false
+		}
+	})
+	switch st {
+	case "stuck":
+		res.ViolateD("stream-operation-never-returns/binary-response-metadata", map[string]any{"goat_goroutines": goatParked(snap)}, "stream with binary response metadata never completes")
+	case "timeout":
+		res.Verdict, res.Note = core.Inconclusive, "watchdog"
+	default:
+		want := 2
+		if kind == "client" {
+			want = 1
+		}
+		switch {
+		case end != io.EOF:
+			res.Violate("successful-stream-reported-failed/binary-response-metadata", "handler returned success (binary metadata %x in %s), the caller observed %v after %d messages", val, where, end, len(got))
+		case len(got) != want:
+			res.Violate("caller-sequence-differs/binary-response-metadata", "caller received %d messages, handler sent %d", len(got), want)
+		case where != "trailer" && (len(hdr.Get("h-bin")) != 1 || hdr.Get("h-bin")[0] != string(val)):
+			res.Violate("caller-sequence-differs/binary-response-metadata", "binary header value %x arrived as %q", val, hdr.Get("h-bin"))
+		case where != "header" && (len(trl.Get("t-bin")) != 1 || trl.Get("t-bin")[0] != string(val)):
+			res.Violate("caller-sequence-differs/binary-response-metadata", "binary trailer value %x arrived as %q", val, trl.Get("t-bin"))
+		default:
+			res.Stat("binary_response_metadata_cases", 1)
+		}
+	}
+	res.NonTrivial = true
+	finish(tier, b, h, res)
+}
+
 func c02Run(tier string, seed int64, idx int) *core.Result {
+	if base := tierN(tier, 600, 24000) + tierN(tier, 18, 180) + tierN(tier, 16, 128) + tierN(tier, 4, 24); idx >= base {
+		res := &core.Result{Verdict: core.Held, Sig: fmt.Sprintf("bmd/%d", idx)}
+		c02BinaryMetadata(tier, seed, idx, idx-base, res)
+		return res
+	}
 	if base := tierN(tier, 600, 24000) + tierN(tier, 18, 180) + tierN(tier, 16, 128); idx >= base {
 		res := &core.Result{Verdict: core.Held, Sig: fmt.Sprintf("hsr/%d", idx)}
 		c02HTTPSlowReceiver(tier, seed, idx, idx-base, res)
@@ -548,13 +659,15 @@ func init() {
 	core.Register(&core.Prop{
 		ID:    "C02",
 		Level: "exploration",
-		Rule:  "cases = 1..32 concurrent streams on one connection, each a (client program, handler program) pair from 9 admissible families over the 3 stream kinds with counts 0..200 and sizes {0,1,17,1Ki,4Ki,64Ki}; every third case is a directed window: one stream whose terminal receive (or a late send / late half-close) is parked by a hook between its done-check and its blocking step until the stream has been torn down. Non-trivial = the window rendezvous fired, or >=2 streams share the connection, or the stream has separate sender and receiver goroutines; distinct = distinct generated case descriptors. Plus (quick 18, thorough 180) cases over the shipped websocket transport on loopback sockets whose writes stall half-way: 2..8 ping-pong bidi streams of 2..5 messages (0..64 KiB) with 2..16 unary calls alongside; every stream must deliver every echo in order and end with io.EOF (30 s wall bound = inconclusive). Plus (quick 16, thorough 128) complete-then-connection-end cases: the handler sends a message and returns success, the caller starts receiving only after message and trailer were read by the client and the connection then ended (io.EOF, wrapped io.EOF, custom error, context.Canceled): it must get the message and io.EOF. Plus (quick 4, thorough 24) cases over the shipped HTTP transport (two instances behind loopback servers, fake clock): the handler bursts 5..8 messages and returns success, the caller starts receiving after the burst has backed up and 3 s of the transport clock have passed: all messages, then io.EOF.",
-		Plan:  func(tier string, seed int64) int { return tierN(tier, 600, 24000) + tierN(tier, 18, 180) + tierN(tier, 16, 128) + tierN(tier, 4, 24) },
-		Run:   c02Run,
-		MaxStats: []string{"max_streams_per_connection"},
+		Rule:  "cases = 1..32 concurrent streams on one connection, each a (client program, handler program) pair from 9 admissible families over the 3 stream kinds with counts 0..200 and sizes {0,1,17,1Ki,4Ki,64Ki}; every third case is a directed window: one stream whose terminal receive (or a late send / late half-close) is parked by a hook between its done-check and its blocking step until the stream has been torn down. Non-trivial = the window rendezvous fired, or >=2 streams share the connection, or the stream has separate sender and receiver goroutines; distinct = distinct generated case descriptors. Plus (quick 18, thorough 180) cases over the shipped websocket transport on loopback sockets whose writes stall half-way: 2..8 ping-pong bidi streams of 2..5 messages (0..64 KiB) with 2..16 unary calls alongside; every stream must deliver every echo in order and end with io.EOF (30 s wall bound = inconclusive). Plus (quick 16, thorough 128) complete-then-connection-end cases: the handler sends a message and returns success, the caller starts receiving only after message and trailer were read by the client and the connection then ended (io.EOF, wrapped io.EOF, custom error, context.Canceled): it must get the message and io.EOF. Plus (quick 4, thorough 24) cases over the shipped HTTP transport (two instances behind loopback servers, fake clock): the handler bursts 5..8 messages and returns success, the caller starts receiving after the burst has backed up and 3 s of the transport clock have passed: all messages, then io.EOF. Plus (quick 18, thorough 108) streams whose handler sets binary (-bin) header and/or trailer metadata with values that need base64 padding and differ between base64 alphabets: all messages, io.EOF and the values unchanged. In the HTTP family one message of every other case is 5 MiB.",
+		Plan: func(tier string, seed int64) int {
+			return tierN(tier, 600, 24000) + tierN(tier, 18, 180) + tierN(tier, 16, 128) + tierN(tier, 4, 24) + tierN(tier, 18, 108)
+		},
+		Run:         c02Run,
+		MaxStats:    []string{"max_streams_per_connection"},
 		Assumptions: []string{"only admissible program pairs (no pair that deadlocks by construction under zero buffering) are generated", "proxy topology limited to <=3 ping-pong style streams (below the proxy buffer)"},
 		RequiredStats: func(string) []string {
-			return []string{"window_rendezvous_fired", "streams_with_two_client_goroutines", "hook:cs.recv.window", "hook:cs.send.window", "ws_streams_checked", "complete_then_connection_end_cases", "http_slow_receiver_cases"}
+			return []string{"window_rendezvous_fired", "streams_with_two_client_goroutines", "hook:cs.recv.window", "hook:cs.send.window", "ws_streams_checked", "complete_then_connection_end_cases", "http_slow_receiver_cases", "binary_response_metadata_cases"}
 		},
 	})
 }
